@@ -181,7 +181,14 @@ class NumEval:
             if t[1] == 'not':
                 return AV(0.0, 1.0, kind='bool')
         if k == 'tuple' or k == 'list':
-            el = [self.ev(x, d) for x in t[1]]
+            el = []
+            for x in t[1]:
+                try:
+                    el.append(self.ev(x, d))
+                except NumError as ex:
+                    # an element nobody may read (e.g. an auxiliary ratio returned next to the
+                    # cost): the error is raised only if the element is used
+                    el.append(AV(kind='error', note=str(ex)))
             return AV(kind='tuple', elems=el)
         if k == 'global':
             from .util import global_value_term
@@ -214,7 +221,10 @@ class NumEval:
             base = self.ev(t[1], d)
             if base.kind == 'tuple' and base.elems is not None and t[2][0] == 'const' and \
                     isinstance(t[2][1], int) and -len(base.elems) <= t[2][1] < len(base.elems):
-                return base.elems[t[2][1]]
+                r_ = base.elems[t[2][1]]
+                if r_.kind == 'error':
+                    raise NumError(r_.note)
+                return r_
             if base.kind == 'tuple' and base.elems is not None and t[2][0] == 'slice':
                 lo_, hi_, st_ = t[2][1], t[2][2], t[2][3]
                 if all(x == NONE or (x[0] == 'const' and isinstance(x[1], int))
